@@ -2,13 +2,22 @@
 import os
 import vlib
 
-AUDIO = {"supported": ["opus/111"], "unsupported": ["bar/121"], "mixed": ["bar/121", "opus/109", "pcmu/0"], "subset": ["pcmu/0"]}
+AUDIO = {"supported": ["opus/111"], "unsupported": ["bar/121"], "mixed": ["bar/121", "opus/109", "pcmu/0"], "subset": ["pcmu/0"],
+         "renumbered": ["opus/109", "pcmu/0"]}
 VIDEO = {"supported": ["vp8/96", "rtx96/97", "h264/102"], "unsupported": ["foo/120"],
-         "mixed": ["foo/120", "vp8/100", "h264/125"], "subset": ["vp8/100"]}
+         "mixed": ["foo/120", "vp8/100", "h264/125"], "subset": ["vp8/100"],
+         # the peer's numbering collides with pion's defaults: 98/99 are VP9 + its RTX there, 96/97 VP8 + its RTX
+         "renumbered": ["vp8/98", "rtx98/99"], "renumbered2": ["h264/96", "rtx96b/97", "vp8/98", "rtx98/99"]}
 PRE = {"none": [],
        "audio-sendrecv-track": [{"op": "addTrack", "who": "A", "kind": "audio"}],
        "video-recvonly": [{"op": "addTransceiver", "who": "A", "kind": "video", "dir": "recvonly"}],
        "audio+video-tracks": [{"op": "addTrack", "who": "A", "kind": "audio"}, {"op": "addTrack", "who": "A", "kind": "video"}],
+       "video-prefs-vp9rtx": [{"op": "addTransceiver", "who": "A", "kind": "video", "dir": "sendrecv"},
+                              {"op": "setPrefs", "who": "A", "n": 0, "prefs": ["vp9", "rtx-vp9"]}],
+       "video-prefs-vp8rtx-h264": [{"op": "addTransceiver", "who": "A", "kind": "video", "dir": "sendrecv"},
+                                   {"op": "setPrefs", "who": "A", "n": 0, "prefs": ["vp8", "rtx-vp8", "h264", "rtx-h264"]}],
+       "video-prefs-rtxfirst": [{"op": "addTransceiver", "who": "A", "kind": "video", "dir": "recvonly"},
+                                {"op": "setPrefs", "who": "A", "n": 0, "prefs": ["rtx-h264", "h264", "vp9", "rtx-vp9"]}],
        "two-video": [{"op": "addTransceiver", "who": "A", "kind": "video", "dir": "sendrecv"},
                      {"op": "addTransceiver", "who": "A", "kind": "video", "dir": "sendrecv"}]}
 
@@ -17,7 +26,7 @@ def concrete(sec, dir_override=None):
     k = sec["kind"]
     codecs = []
     if k == "audio":
-        codecs = AUDIO[sec["codecs"]]
+        codecs = AUDIO[sec["codecs"] if sec["codecs"] in AUDIO else "renumbered"]
     elif k == "video":
         codecs = VIDEO[sec["codecs"]]
     elif k != "application":
@@ -53,18 +62,69 @@ def split_walks(res):
     return walks
 
 
+OBSERVE = ("negotiate", "offerOnly")
+
+
+def walk_features(w):
+    """What a history exercises, for selection: ordered pairs of calls, and pairs of calls followed
+    (not necessarily at once) by a call that generates descriptions, each with who-made-it relative
+    to the first call of the tuple."""
+    ks = [(s.get("op"), s.get("who")) for s in w]
+    f = set()
+    for i in range(len(ks)):
+        for j in range(i + 1, len(ks)):
+            same_ij = ks[i][1] == ks[j][1]
+            f.add((ks[i][0], ks[j][0], same_ij))
+            for k in range(j + 1, len(ks)):
+                if ks[k][0] in OBSERVE:
+                    f.add((ks[i][0], ks[j][0], ks[k][0], same_ij, ks[i][1] == ks[k][1]))
+    return f
+
+
+def select_walks(walks, n, rng):
+    """Greedy cover: keep the histories that add most not-yet-seen features, then fill up at random."""
+    feats = [walk_features(w) for w in walks]
+    order = list(range(len(walks)))
+    rng.shuffle(order)
+    # lazy greedy: gains only shrink, so a stale entry whose re-computed gain still tops the heap is the best
+    import heapq
+    heap = [(-len(feats[i]), pos, i) for pos, i in enumerate(order)]
+    heapq.heapify(heap)
+    seen, chosen, taken = set(), [], set()
+    while len(chosen) < n and heap:
+        g, pos, i = heapq.heappop(heap)
+        real = len(feats[i] - seen)
+        if real == 0:
+            continue
+        if heap and -real > heap[0][0]:
+            heapq.heappush(heap, (-real, pos, i))
+            continue
+        chosen.append(i)
+        taken.add(i)
+        seen |= feats[i]
+    rest = [i for i in order if i not in taken]
+    chosen += rest[:max(0, n - len(chosen))]
+    allf = set().union(*feats) if feats else set()
+    return [walks[i] for i in chosen], len(seen), len(allf)
+
+
 def run_sdp(ctx, prop, configs, nwalk_q, nwalk_t, own_preds):
     quick = ctx.quick
     # 1. exhaustive check of the intended bookkeeping on the generative model
     vlib.tlc_model(ctx, "PeerConn", "PeerConn_MC", workers=12, timeout=1500)
     # 2. histories: TLC simulation of the same model (larger bounds), seeded
     nwalk = nwalk_q if quick else nwalk_t
-    sim = vlib.run_tlc(ctx, "PeerConn", "PeerConn_Sim", workers=1, simulate="num=%d" % nwalk, depth=8, timeout=900)
+    # many more than are replayed: the replayed ones are selected for what they exercise
+    nsim = max(1500, nwalk)
+    sim = vlib.run_tlc(ctx, "PeerConn", "PeerConn_Sim", workers=1, simulate="num=%d" % nsim, depth=8, timeout=900)
     if sim.rc != 0:
         raise vlib.NoVerdict("simulation failed: %s" % sim.error)
     walks = split_walks(sim)
-    ctx.rng.shuffle(walks)
-    walks = walks[:nwalk]
+    nsimulated = len(walks)
+    walks, fcov, fall = select_walks(walks, nwalk, ctx.rng)
+    ctx.cov["history_selection"] = {"simulated": nsimulated, "replayed": len(walks), "call_tuples_covered": fcov,
+                                    "call_tuples_in_simulated": fall}
+    ctx.log("histories: %d simulated, %d selected covering %d of %d call tuples" % (nsimulated, len(walks), fcov, fall))
     beh = []
     for i, w in enumerate(walks):
         beh.append({"id": len(beh), "config": configs[i % len(configs)], "steps": w})
